@@ -263,3 +263,22 @@ impl Hash for ConstHash {
         7u8.hash(state)
     }
 }
+
+/// Two different element types for the old and the new side: cross-type equality is that of the
+/// values, but equal values of the two types hash differently (like `Ipv4Addr` vs `IpAddr`) -
+/// the API only requires `New::Output: PartialEq<Old::Output>`.
+#[derive(Clone, Copy, Debug, PartialEq, Eq, PartialOrd, Ord, Hash)]
+pub struct OldT(pub u32);
+#[derive(Clone, Copy, Debug, PartialEq, Eq, PartialOrd, Ord)]
+pub struct NewT(pub u32);
+impl Hash for NewT {
+    fn hash<H: Hasher>(&self, state: &mut H) {
+        (self.0 as u64 ^ 0x9e37_79b9_7f4a_7c15).hash(state);
+        1u8.hash(state)
+    }
+}
+impl PartialEq<OldT> for NewT {
+    fn eq(&self, other: &OldT) -> bool {
+        self.0 == other.0
+    }
+}
